@@ -801,6 +801,9 @@ def main(run):
     # the csv dump of this property's field: every row is the recorded field of that assembly at that plane
     from . import reports as _rep
     run.explore('core', core_cases(run.tier), run_core, budget_s=300, chunksize=1)
+    # heat into the walls as booked per assembly (energy-balance table) on cores with un-rodded regions
+    run.explore('report-ebal', [c_ for c_ in _rep.cases_ebal(run.tier) if 'R' in c_['layout'].split()],
+                _rep.run_ebal, budget_s=300)
     run.explore('report-dumps', _rep.cases_dumps(run.tier), _rep.run_dumps_C11, budget_s=300)
     # vacuity
     ex = run.extra
